@@ -464,8 +464,17 @@ def _scenario_spec_raw(draw, c=None):
     for feat, kinds in (("run-length", ("atmost", "atleast", "exactly_row")), ("pin", ("pin",)), ("exactly-k", ("exactly_k",))):
         if feat in feats:
             constraints.append(draw(constraint(c, spec, T, names, kinds=kinds)))
+    # q = number of combinations of the crossed factors that are decided per trial (basic and within-trial ones); a
+    # leftover round of exactly q trials is the boundary at which "every combination once" stops being true when weights
+    # or a crossed Transition/Window multiply the round (F37 lived there)
+    dmap = {d["name"]: d for d in derived}
+    qn = 1
+    for n_ in crossing:
+        if n_ not in dmap or dmap[n_]["kind"] == "within":
+            qn *= len(S.levels_of(spec, n_))
+    edge = [qn, qn] if 1 <= qn < Sz else []
     if "min-leftover" in feats:
-        constraints.append({"kind": "min", "k": T + draw(st.integers(1, max(1, Sz - 1)))})
+        constraints.append({"kind": "min", "k": T + draw(st.one_of(st.integers(1, max(1, Sz - 1)), st.sampled_from(edge or [1, max(1, Sz - 1)])))})
     elif "min-multiple" in feats:
         constraints.append({"kind": "min", "k": T + Sz})
     for x in constraints:
@@ -484,7 +493,7 @@ def _scenario_spec_raw(draw, c=None):
         for n_ in crossing:
             ncomb *= len(S.levels_of(spec, n_))
         extra = (2 * Sz + draw(st.integers(0, 1))) if "repeat-three" in feats else \
-            draw(st.one_of(st.integers(1, max(1, 2 * Sz - 1)), st.sampled_from([min(ncomb, max(1, Sz - 1)), min(ncomb, max(1, Sz - 1)), max(1, Sz - 1), 3])))
+            draw(st.one_of(st.integers(1, max(1, 2 * Sz - 1)), st.sampled_from(edge + [min(ncomb, max(1, Sz - 1)), max(1, Sz - 1), 3])))
         spec["block"] = {"type": "repeat", "block": block, "constraints": [{"kind": "min", "k": T + extra}]}
     if c.get("aux"):
         spec["aux"] = draw(st.integers(0, 2 ** 30))
@@ -535,7 +544,84 @@ def scenario_spec(c=None):
     return guarded(_scenario_spec_raw(c))
 
 
-def mixed_spec(c=None, p_scenario=0.5):
-    """half generic random designs, half constructed feature-interaction scenarios"""
+@st.composite
+def _round_skeleton_raw(draw, c=None):
+    """Small designs stratified over what RandomGen's enumerator and the Cross encoding branch on: what is crossed
+    (basic / within-trial factor with an uncrossed source / a weighted level / a crossed Transition that multiplies the
+    round) x the round structure (exact, leftover of 1, of q = number of per-trial combinations, of a round minus one,
+    two rounds and a bit) x how the extra trials are requested (MinimumTrials on the block, Repeat around it).  Every cell
+    is constructed and stays small enough to be enumerated."""
     c = c or DEFAULT
-    return st.one_of(design_spec(c), scenario_spec(c)) if p_scenario >= 0.5 else st.one_of(design_spec(c), design_spec(c), scenario_spec(c))
+    nA = draw(st.sampled_from([2, 2, 2, 3]))
+    A = {"name": "A", "levels": [["a%d" % i, 1] for i in range(nA)]}
+    B = {"name": "B", "levels": [["b%d" % i, 1] for i in range(draw(st.sampled_from([2, 2, 3, 4])))]}
+    derived = []
+    what = draw(st.sampled_from(["basic", "within", "within", "both"]))
+    crossing = ["A"]
+    if what != "basic":
+        args = ["B"] if what == "both" else draw(st.sampled_from([["B"], ["A", "B"], ["B", "A"]]))
+        derived.append({"name": "X", "args": args, "kind": "within", "width": 1, "stride": 1, "start": None,
+                        "levels": [["x0", 1], ["x1", 1]], "else_last": draw(st.integers(0, 3)) == 0,
+                        "salt": draw(st.integers(0, 10 ** 6)), "overrides": {}})
+        crossing = ["A", "X"] if what == "both" else ["X"]
+    weighted = draw(st.sampled_from(["no", "no", "crossed", "crossed", "uncrossed"]))
+    if weighted == "crossed":
+        tgt = derived[0]["levels"] if (derived and draw(st.booleans())) else (A["levels"] if "A" in crossing else derived[0]["levels"])
+        tgt[draw(st.integers(0, len(tgt) - 1))][1] = draw(st.sampled_from([2, 2, 3]))
+    elif weighted == "uncrossed":
+        B["levels"][draw(st.integers(0, len(B["levels"]) - 1))][1] = 2
+    complex_ = draw(st.integers(0, 2)) == 0
+    if complex_:
+        derived.append({"name": "Y", "args": [draw(st.sampled_from(["A", "B"]))], "kind": draw(st.sampled_from(["transition", "transition", "window"])),
+                        "width": 2, "stride": 1, "start": None, "levels": [["y0", 1], ["y1", 1]], "else_last": draw(st.booleans()),
+                        "salt": draw(st.integers(0, 10 ** 6)), "overrides": {}})
+        crossing = crossing + ["Y"] if draw(st.booleans()) else ["Y"] + crossing
+    names = ["A", "B"] + [d["name"] for d in derived]
+    spec = {"factors": [A, B], "derived": derived}
+    used = set(crossing)
+    for d in derived:
+        used.update(d["args"])
+    for f in (A, B):
+        if f["name"] not in used and draw(st.integers(0, 2)):
+            f["levels"] = f["levels"][:1]          # an independent factor only multiplies the count
+    leaf = {"type": "cross", "design": names, "crossing": crossing, "constraints": [], "rcc": True}
+    spec["block"] = leaf
+    T = estimate_T(spec) or 2
+    p = 1 if complex_ else 0
+    Sz = max(1, T - p)
+    q = 1
+    for n_ in crossing:
+        if n_ != "Y":
+            q *= len(S.levels_of(spec, n_))
+    options = [0, 1, q, Sz - 1, Sz, Sz + 1, Sz + q]
+    cap = c.get("max_T", 8)
+    extra = draw(st.sampled_from([e for e in options if e >= 0 and T + e <= cap] or [0, 1]))
+    if draw(st.integers(0, 3)) == 0:
+        leaf["constraints"].append(draw(constraint(c, spec, T, names, kinds=("exclude", "atmost", "pin", "exactly_k"))))
+        if leaf["constraints"][-1]["kind"] == "exclude":
+            leaf["rcc"] = False
+    how = draw(st.sampled_from(["min", "repeat"]))
+    if extra:
+        if how == "min":
+            leaf["constraints"].append({"kind": "min", "k": T + extra})
+        else:
+            spec["block"] = {"type": "repeat", "block": leaf, "constraints": [{"kind": "min", "k": T + extra}]}
+    if c.get("aux"):
+        spec["aux"] = draw(st.integers(0, 2 ** 30))
+    spec["skeleton"] = {"kind": "round", "crossed": what, "weighted": weighted, "complex": complex_, "how": how if extra else "exact",
+                        "extra": "0" if extra == 0 else "1" if extra == 1 else "q" if extra == q else "S-1" if extra == Sz - 1 else
+                                 "S" if extra == Sz else "S+1" if extra == Sz + 1 else "S+q"}
+    return spec
+
+
+def round_skeleton(c=None):
+    return guarded(_round_skeleton_raw(c))
+
+
+def mixed_spec(c=None, p_scenario=0.5):
+    """generic random designs, constructed feature-interaction scenarios and (one in five) round-structure skeletons"""
+    c = c or DEFAULT
+    parts = [design_spec(c), design_spec(c), scenario_spec(c), scenario_spec(c)]
+    if "repeat" in c["blocks"] or c.get("round_skeleton"):
+        parts.append(round_skeleton(c))
+    return st.one_of(*parts)
